@@ -1,4 +1,6 @@
 import Gomjml.Core.InlineTag
+import Gomjml.Core.InlineScan
+import Gomjml.Core.CharData
 import Driver.PassP
 /-! driver sub-protocols `inltag` (the inline-style scanner's per-tag step) and `mergestyle` -/
 open Gomjml.InlineTag
@@ -33,6 +35,28 @@ def handle (args : List String) : String :=
       | none => "noparse"
       | some p => if p.clean then "clean" else "unclean"
     Driver.PassP.hexOfBytes out ++ " " ++ st
+  | _ => "bad-request"
+
+/-- `inlscan <fragment> <class>:<decls> …` → `<result> <number of start tags>` -/
+def scanHandle (args : List String) : String :=
+  match args with
+  | fragH :: kvs =>
+    let table := kvs.filterMap (fun kv => match kv.splitOn ":" with
+      | [k, d] => some (unhexL k, unhexL d)
+      | _ => none)
+    let frag := unhexL fragH
+    let out := Gomjml.InlineScan.scan (inlOf table) frag
+    let n := ((Gomjml.InlineScan.segments (frag.length + 1) frag).filter (fun s => match s with | .start _ => true | _ => false)).length
+    Driver.PassP.hexOfBytes out ++ " " ++ toString n
+  | _ => "bad-request"
+
+/-- `cdata <text>` → `<escape text> <unescape (escape text)>` -/
+def cdataHandle (args : List String) : String :=
+  match args with
+  | [h] =>
+    let s := unhexL (h.drop 1).toString
+    let e := Gomjml.CharData.escape s
+    "x" ++ Driver.PassP.hexOfBytes e ++ " x" ++ Driver.PassP.hexOfBytes (Gomjml.CharData.unescape e.length e)
   | _ => "bad-request"
 
 def mergeHandle (args : List String) : String :=
